@@ -372,7 +372,7 @@ def classify_lines(lines):
     return ("missing", lines, "")
 
 
-RK_CLASS = {"Nil": "<class Nil>", "Bool": "<class Bool>", "Num": "<class Num>", "String": "<class String>",
+RK_CLASS = {"Nil": "<class Nil>", "Bool": "<class Boolean>", "Num": "<class Num>", "String": "<class String>",
             "Tuple": "<class Tuple>", "Vec": "<class Vec>", "Fiber": "<class Fiber>", "StringIter": "<class StringIter>",
             "TupleIter": "<class TupleIter>", "VecIter": "<class VecIter>", "RangeIter": "<class RangeIter>",
             "instance": "<class Error>"}
@@ -763,6 +763,7 @@ def run(ctx):
     combos = set()
     nontrivial = set()
     mism = 0
+    mism_by = {}
     viol_s = 0
     for p, m, r in zip(probes, model, impl):
         combos.add(p.key())
@@ -779,6 +780,7 @@ def run(ctx):
                               expected="Ok or Err(Error); model: %s" % m, actual="%s %s" % (r[0], r[2]), native=p.native, kinds=p.wire())
         if d is not None:
             mism += 1
+            mism_by[p.native] = mism_by.get(p.native, 0) + 1
             if mism <= 8:
                 ctx.corr_broken.append("impl != M (NativesModel.v) on %s [%s] ctx=%s: %s | snippet: %s" % (p.native, p.wire(), p.ctx, d, p.snippet(0)[:400]))
 
@@ -900,7 +902,7 @@ def run(ctx):
                 "(the call got past check_num_args / the at-most-1 test); kinds as in NativesModel.akind (number class, vec length, tuple hashability, "
                 "closure arity, iterator kind, fiber frames/at_start/has_caller/arity)",
         "native_calls": ncalls, "distinct_combinations": len(combos), "outcome_histogram": dict(sorted(hist.items())),
-        "impl_vs_model_mismatches": mism, "pool_values": len(POOL), "pool_values_kind_checked_by_impl": pool_checked,
+        "impl_vs_model_mismatches": mism, "mismatches_by_native": mism_by, "pool_values": len(POOL), "pool_values_kind_checked_by_impl": pool_checked,
         "natives": len(NAT), "derived_receiver_panics": seen_panics,
         "programs": len(progs), "program_results": pres, "program_caught_error_classes": dict(sorted(errk.items())), "builds": builds,
         "known_classes_probed": sorted({k[0] for k in KNOWN}), "known_classes_reproduced": {k: v[0][:80] for k, v in seen_known.items()},
